@@ -60,6 +60,10 @@ def cases(draw, tier):
         case["m"] = draw(st.integers(n, n + 8))
     if sub == "batched":
         case["nrhs"] = case["batch"]
+        if draw(st.integers(1, 3)) == 1:
+            # round 6: every member of the batch on its own scale (the Krylov basis of a member does not depend on the
+            # magnitude of its start vector, let alone on the other members')
+            case["vscale"] = [draw(st.sampled_from([-20, -17, -8, 0, 0, 6, 12])) for _ in range(case["batch"])]
     return case
 
 
@@ -191,6 +195,9 @@ def check(case, out):
     n, m = case["n"], case["m"]
     tol = 0.0 if case.get("tol_zero") else 10.0 ** case["tol_exp"]
     vs = [B] if B.ndim == 1 else [B[:, j] for j in range(B.shape[1])]
+    if case.get("vscale") and sub == "batched" and B.dtype in (np.float64, np.complex128):
+        vs = [vv * 10.0 ** e for vv, e in zip(vs, case["vscale"])]
+        out.label("batched:member_scales")
     v = vs[0]
     A, M = make_operator(case.get("op", "dense"), M, case["seed"])
     if case.get("annot") and type(A).__name__ == "Dense" and np.allclose(M, M.conj().T):
